@@ -142,6 +142,7 @@ def directed_pairs():
          {'ticketCipher': 'chacha20-poly1305', 'ticketKeys': [bytearray(16)]}),
         ('ticket key too short for chacha20-poly1305, TLS 1.2', 'rsa', {'maxVersion': (3, 3)},
          {'ticketCipher': 'chacha20-poly1305', 'ticketKeys': [bytearray(16)]}),
+        ('client without (EC)DHE key exchanges still offers TLS 1.3', 'rsa', {'keyExchangeNames': ['rsa']}, {}),
         ('TLS 1.2 only, CBC only', 'rsa', {'maxVersion': (3, 3), 'cipherNames': ['aes128'], 'macNames': ['sha']}, {}),
         ('TLS 1.0 only', 'ecdsa', {'maxVersion': (3, 1)}, {}),
     ]
@@ -204,7 +205,7 @@ def reason(o):
 def run_pairs(ctx, found, model_ok):
     from props.C19 import V
     quick = ctx.tier == 'quick'
-    n = 48 if quick else 1600
+    n = 48 if quick else 1000
     seeds = [ctx.rng.randrange(2 ** 31) for _ in range(n)]
     pairs = directed_pairs() + [gen_pair(sd) for sd in seeds]
     with multiprocessing.Pool(min(16, vlib.NPROC)) as pool:
@@ -219,7 +220,7 @@ def run_pairs(ctx, found, model_ok):
               {'pair': pairs[i], 'detail': o['detail']}, found_input=False)
     lits = [outs[i]['lit'] for i in idx]
     (nc, nca), errs = vlib.coq_bad_indices('C19p', IMPORTS, 'PairT', ['not_compat', 'not_compat_any'], lits,
-                                           shard=max(4, (len(lits) + 15) // 16) if quick else 100, preamble=PREAMBLE)
+                                           shard=max(4, (len(lits) + 15) // 16) if quick else 50, preamble=PREAMBLE)
     for e in errs:
         V(ctx, found, 'tie-broken:pairs', 'evaluation of `compatible` failed: ' + e[:300], {'detail': e[:2000]}, found_input=False)
         return
